@@ -15,8 +15,8 @@ Definition ex_jar : jar :=
 Definition ex_lhash (bits v : pystr) : pystr := (PS "H" ++ bits ++ PS ":" ++ v)%list.
 
 Definition ex_cfg (reg_alg usage_alg : option pystr) (allow_none : bool) : rp_cfg :=
-  mkCfg ex_iss (Some ex_iss) ex_cid reg_alg usage_alg allow_none 0 false ex_jar.
-Definition ex_cfg2 : rp_cfg := mkCfg ex_iss2 (Some ex_iss2) ex_cid None (Some (PS "RS256")) false 0 false ex_jar.
+  mkCfg ex_iss (Some ex_iss) ex_cid reg_alg usage_alg allow_none 0 false ex_jar None None [11%nat].
+Definition ex_cfg2 : rp_cfg := mkCfg ex_iss2 (Some ex_iss2) ex_cid None (Some (PS "RS256")) false 0 false ex_jar None None [11%nat].
 
 Definition ex_now : Z := 1700000000.
 Definition ex_claims (iss nonce sub : pystr) (extra : dict) : dict :=
@@ -26,16 +26,16 @@ Definition ex_claims (iss nonce sub : pystr) (extra : dict) : dict :=
 (* a genuine RS256 token of the issuer for the flow with nonce N1, delivered with the code C1 *)
 Definition ex_tok_rs (nonce : pystr) : token :=
   mkTok (PS "RS256") (Some (PS "r1")) (Some 0%nat)
-        (ex_claims ex_iss nonce (PS "diana") [(PS "c_hash", VStr (ex_lhash (PS "256") (PS "C1")))]).
+        (ex_claims ex_iss nonce (PS "diana") [(PS "c_hash", VStr (ex_lhash (PS "256") (PS "C1")))]) None.
 Definition ex_tok_es (nonce : pystr) : token :=
   mkTok (PS "ES256") (Some (PS "e1")) (Some 2%nat)
-        (ex_claims ex_iss nonce (PS "diana") [(PS "c_hash", VStr (ex_lhash (PS "256") (PS "C1")))]).
+        (ex_claims ex_iss nonce (PS "diana") [(PS "c_hash", VStr (ex_lhash (PS "256") (PS "C1")))]) None.
 (* unsigned, no c_hash *)
 Definition ex_tok_none (nonce : pystr) : token :=
-  mkTok (PS "none") None None (ex_claims ex_iss nonce (PS "diana") []).
+  mkTok (PS "none") None None (ex_claims ex_iss nonce (PS "diana") []) None.
 (* token-endpoint tokens (no hashes); the subject is a parameter *)
 Definition ex_tok_te (nonce sub : pystr) : token :=
-  mkTok (PS "RS256") (Some (PS "r1")) (Some 0%nat) (ex_claims ex_iss nonce sub []).
+  mkTok (PS "RS256") (Some (PS "r1")) (Some 0%nat) (ex_claims ex_iss nonce sub []) None.
 
 Definition ex_req (st nonce : pystr) : record :=
   [(PS "redirect_uri", VStr (PS "https://rp.example.com/cb")); (PS "response_type", VStr (PS "code"));
@@ -56,3 +56,10 @@ Definition ex_two_flows (cfg : rp_cfg) : client :=
 
 Definition ex_world : list (pystr * client) :=
   [(ex_iss, ex_client (ex_cfg (Some (PS "RS256")) (Some (PS "RS256")) false)); (ex_iss2, ex_client ex_cfg2)].
+
+(* encrypted delivery: the client owns decryption key 11 and registered RSA-OAEP / A256GCM *)
+Definition ex_wrap : jwe_wrap := mkJwe (PS "RSA-OAEP") (PS "A256GCM") (Some 11%nat).
+Definition ex_cfg_enc (reg_alg : option pystr) : rp_cfg :=
+  mkCfg ex_iss (Some ex_iss) ex_cid reg_alg (Some (PS "RS256")) false 0 false ex_jar
+        (Some (PS "RSA-OAEP")) (Some (PS "A256GCM")) [11%nat].
+Definition wrapped (t : token) (w : jwe_wrap) : token := mkTok (t_alg t) (t_kid t) (t_signer t) (t_claims t) (Some w).
